@@ -343,7 +343,8 @@ impl Disk {
         self.img.write_block(cluster, &data[offset..offset+actual_len])
     }
     fn get_available_block(&mut self) -> Result<Option<usize>,DYNERR> {
-        for block in fat::FIRST_DATA_CLUSTER as usize..self.boot_sector.cluster_count_usable() as usize {
+        let beg = fat::FIRST_DATA_CLUSTER as usize;
+        for block in beg..beg+self.boot_sector.cluster_count_usable() as usize {
             if self.is_block_free(block)? {
                 return Ok(Some(block));
             }
